@@ -13,7 +13,7 @@ for d in demos:
     shutil.copy(d, out)
 notes = open(os.path.join(SRC, "notes.md")).read() if os.path.exists(os.path.join(SRC, "notes.md")) else ""
 shutil.copy(os.path.join(SRC, "notes.md"), os.path.join(out, "notes.md"))
-prop = json.load(open(f"/tmp/seed/props/{ID}.json"))
+prop = json.load(open(f"/tmp/seed2/props/{ID}.json"))
 meta = {
     "property": ID,
     "property_title": prop["title"],
